@@ -6,6 +6,7 @@ import NanoVerif.Model.ViewBox
 import NanoVerif.Model.ClipBox
 import NanoVerif.Model.PaintTree
 import NanoVerif.Model.Bitmap
+import NanoVerif.Model.Reorder
 /-
 Correspondence driver.  One JSON object per input line: {"op": ..., ...}; one JSON object per
 output line.  Run: `lake env lean --run Driver.lean < ops.jsonl`.
@@ -109,6 +110,15 @@ def getBConfig (j : Json) : Except String BConfig := do
 
 def dispatch (op : String) (j : Json) : Except String Json := do
   match op with
+  | "sort-by-gid" =>
+      let glyphs ← getStrs (← field j "glyphs")
+      let order ← getStrs (← field j "order")
+      let gid (g : String) : Nat := (order.idxOf? g).getD order.length
+      let par : Option (List String) ← match fieldOpt j "par" with
+        | none => pure none
+        | some p => some <$> getStrs p
+      let r := sortByGid gid glyphs par
+      return obj [("glyphs", jStrs r.1), ("par", match r.2 with | some l => jStrs l | none => Json.null)]
   | "nudge" =>
       return obj [("r", jI (nudge (← getInt (← field j "lo")) (← getInt (← field j "hi")) (← getInt (← field j "v")) (← getInt (← field j "m"))))]
   | "bitmap" =>
